@@ -26,6 +26,7 @@ type MW struct {
 	Pre   []ROp `json:"pre,omitempty"`
 	Post  []ROp `json:"post,omitempty"`
 	Short bool  `json:"short,omitempty"` // does not call $next
+	Class bool  `json:"class,omitempty"` // registered as an object with a handle() method instead of a closure
 }
 
 type W struct {
@@ -35,7 +36,8 @@ type W struct {
 	OnError    []ROp `json:"on_error_ops,omitempty"`
 	Strict     bool  `json:"strict_conn,omitempty"`
 	FailWrite  int   `json:"fail_write_at,omitempty"`
-	Aborts     bool  `json:"aborts"` // try a handler abort before every operation
+	Aborts     bool  `json:"aborts"`              // try a handler abort before every operation
+	OnFormat   bool  `json:"on_format,omitempty"` // a custom formatter for success()/error()
 }
 
 var codes = []int{200, 201, 202, 203, 204, 205, 226, 301, 302, 304, 307, 308, 400, 401, 403, 404, 409, 418, 422, 429, 451, 500, 502, 503}
@@ -124,11 +126,26 @@ func gen(r *verifsim.Rng, tier string) (any, hx.Sched) {
 			m.Post = genOps(r, 2, 200+10*i)
 		}
 		m.Short = r.Intn(8) == 0
+		m.Class = r.Intn(4) == 0
 		w.MWs = append(w.MWs, m)
 	}
 	if r.Intn(2) == 0 {
 		w.HasOnError = true
 		w.OnError = genOps(r, 3, 300)
+	}
+	w.OnFormat = r.Intn(5) == 0
+	if w.OnFormat {
+		// The request's formatter is detached when the handler returns, so success()/
+		// error() inside the error handler use the default envelope. What those calls
+		// write is not C13's subject (their bytes are calibrated in a plain handler),
+		// so with a custom formatter the error handler does not use them.
+		var keep []ROp
+		for _, op := range w.OnError {
+			if op.K != "success" && op.K != "error" {
+				keep = append(keep, op)
+			}
+		}
+		w.OnError = keep
 	}
 	w.Strict = r.Intn(3) == 0
 	if r.Intn(4) == 0 {
@@ -291,7 +308,21 @@ func script(w *W) string {
 		return b.String()
 	}
 	var b strings.Builder
-	b.WriteString("<?php\nuse Net\\Http\\Server;\n$server = new Server('127.0.0.1', 0);\n")
+	b.WriteString("<?php\nuse Net\\Http\\Server;\n")
+	for i, m := range w.MWs {
+		if m.Class {
+			fmt.Fprintf(&b, "class Mw%d {\n  public function handle($request, $response, $next) {\n    __mark(\"enter%d\");\n%s", i, i, seg(fmt.Sprintf("pre%d", i), "$response", false))
+			if !m.Short {
+				fmt.Fprintf(&b, "    $next($request, $response);\n    __mark(\"back%d\");\n", i)
+			}
+			fmt.Fprintf(&b, "%s    __mark(\"exit%d\");\n  }\n}\n", seg(fmt.Sprintf("post%d", i), "$response", false), i)
+		}
+	}
+	b.WriteString("$server = new Server('127.0.0.1', 0);\n")
+	if w.OnFormat {
+		// registered first, so that the calibration routes use the same formatter
+		b.WriteString("$server->onFormat(function ($code, $message, $data) {\n  return [\"c\" => $code, \"m\" => $message, \"d\" => $data, \"fmt\" => \"custom\"];\n});\n")
+	}
 	// calibration routes: one body-producing operation alone, no middleware, no error handler
 	for _, n := range all {
 		switch n.op.K {
@@ -303,6 +334,10 @@ func script(w *W) string {
 		fmt.Fprintf(&b, "$server->onError(function ($request, $response, $error) {\n    __mark(\"onerror\");\n%s});\n", seg("err", "$response", false))
 	}
 	for i, m := range w.MWs {
+		if m.Class {
+			fmt.Fprintf(&b, "$server->middleware(new Mw%d(), %d);\n", i, m.Prio)
+			continue
+		}
 		fmt.Fprintf(&b, "$server->middleware(function ($request, $response, $next) {\n    __mark(\"enter%d\");\n%s", i, seg(fmt.Sprintf("pre%d", i), "$response", false))
 		if !m.Short {
 			fmt.Fprintf(&b, "    $next($request, $response);\n    __mark(\"back%d\");\n", i)
